@@ -60,7 +60,7 @@ var c13Kinds = []string{
 	// calls that must fail
 	"transcript-retain", "fail-prove-zero-commitment",
 	"readpoint-mutate", "readscalar-mutate", "prove-mutate-result", "fr-setbigint", "fr-setinterface", "setidentity-mutate",
-	"results-mutate", "fr-exp", "proof-read-reuse", "decode-trust-sequence", "commit-short", "prove-twice-keep-first",
+	"results-mutate", "fr-exp", "proof-read-reuse", "decode-trust-sequence", "commit-short", "prove-twice-keep-first", "two-configs",
 	"fail-prove-len", "fail-prove-zero", "fail-prove-polylen", "fail-verify-len", "fail-verify-shape", "fail-ipa-verify-shape", "fail-batchnorm-zero", "fail-read-short", "fail-decode-noncanonical", "fail-msm-len",
 }
 
@@ -615,6 +615,42 @@ func doCall(a *arena, c C13Call) (out string, failed bool) {
 		err4 := u.SetBytesUncompressed(ub[:], true)
 		err5 := u.SetBytesUncompressed(ub[:], false)
 		return digest(err1 != nil, err2 != nil, err3 != nil, err4 != nil, err5 != nil), err1 != nil
+	case "two-configs":
+		// a second configuration that differs from the shared one only in Q (a by-value copy: the
+		// shared configuration is not touched). What a call returns must depend on the configuration
+		// it is GIVEN, not on the one that happened to be used first in this process: a proof made
+		// under one Q verifies under that Q and (with overwhelming probability) not under the other.
+		cfgB := *cfg
+		cfgB.Q = *a.Elems[pick(nElems, c.A)]
+		k := pick(nPolys, c.B)
+		z := a.Scalars[3+pick(nScal-3, c.N)]
+		bc := cfg.PrecomputedWeights.ComputeBarycentricCoefficients(z)
+		res, _ := ipa.InnerProd(a.Polys[k], bc)
+		com := *a.Commits[k]
+		pA, errA := ipa.CreateIPAProof(common.NewTranscript("two"), cfg, com, a.Polys[k], z)
+		pB, errB := ipa.CreateIPAProof(common.NewTranscript("two"), &cfgB, com, a.Polys[k], z)
+		if errA != nil || errB != nil {
+			return digest("err"), true
+		}
+		okAA, _ := ipa.CheckIPAProof(common.NewTranscript("two"), cfg, com, pA, z, res)
+		okBB, _ := ipa.CheckIPAProof(common.NewTranscript("two"), &cfgB, com, pB, z, res)
+		okAB, _ := ipa.CheckIPAProof(common.NewTranscript("two"), &cfgB, com, pA, z, res)
+		okBA, _ := ipa.CheckIPAProof(common.NewTranscript("two"), cfg, com, pB, z, res)
+		// the cross checks are only meaningful when the proof depends on Q at all: its first-round
+		// cross terms <aR,bL>, <aL,bR> are the coefficients of Q in L_1, R_1; when both vanish (zero
+		// polynomial, unit polynomial opened at another domain point) every later round may vanish
+		// too and the proof is legitimately the same under every Q.
+		half := len(bc) / 2
+		zL, _ := ipa.InnerProd(a.Polys[k][half:], bc[:half])
+		zR, _ := ipa.InnerProd(a.Polys[k][:half], bc[half:])
+		sensitive := !(zL.IsZero() && zR.IsZero()) && !cfgB.Q.Equal(&cfg.Q)
+		if !okAA || !okBB || (sensitive && (okAB || okBA)) {
+			return "CONFIG-IGNORED", false
+		}
+		var b1, b2 bytes.Buffer
+		pA.Write(&b1)
+		pB.Write(&b2)
+		return digest(b1.Bytes(), b2.Bytes()), false
 	case "commit-short":
 		// a vector shorter than 256 whose spare capacity reaches into the next polynomial
 		k := pick(nPolys, c.A)
@@ -1161,6 +1197,9 @@ func (c13) Exec(plan interface{}) Result {
 			digests = append(digests, d)
 			if failed {
 				o.failedCalls++
+			}
+			if d == "CONFIG-IGNORED" {
+				return fail("history-dependent", "call %d (%s): proofs made and checked under two configurations that differ in Q do not behave as functions of the configuration they were given (own proof must verify, the other configuration's must not): some state was fixed by whichever configuration was used first", i, c.Kind)
 			}
 			if d == "ALIASED-RESULT" {
 				return fail("aliased-result", "call %d (%s): a proof value copied from a receiver changed when the receiver was reused for another Read (the decoded L/R arrays are shared)", i, c.Kind)
